@@ -52,15 +52,19 @@ def notAfterCancel (cancel : Option Dur) (t : Dur) : Bool :=
   | some c => t ≤ c
   | none => true
 
-/-- the property's decision: connected, greeting sent, and the first two reply bytes are 05 00 — and
-    the scan was not cancelled before the second of them was there -/
-def shouldReport (dialT dataT : Dur) (s : Script) : Bool :=
+/-- the first two bytes of the server's reply, if the probe gets to see them: connected, greeting sent,
+    two bytes arrive — and the scan was not cancelled before the second of them was there -/
+def reply (dialT dataT : Dur) (s : Script) : Option (UInt8 × UInt8) :=
   match connectedAt dialT s, greetingSentAfter dataT s with
   | some tc, some tw =>
     match arrivals dataT (tc + tw) s.reads with
-    | (a, _) :: (b, t2) :: _ => a == 5 && b == 0 && notAfterCancel s.cancel t2
-    | _ => false
-  | _, _ => false
+    | (a, _) :: (b, t2) :: _ => if notAfterCancel s.cancel t2 then some (a, b) else none
+    | _ => none
+  | _, _ => none
+
+/-- the property's decision: "the first two bytes the server sends in reply … are 05 00" -/
+def shouldReport (dialT dataT : Dur) (s : Script) : Bool :=
+  reply dialT dataT s == some (5, 0)
 
 /-- "the connect timeout plus three data timeouts" -/
 def bound (dialT dataT : Dur) : Dur := dialT + 3 * dataT
